@@ -666,3 +666,44 @@ def ck10(model):
                 else:
                     r.ok(n, '%s on the common path' % T.call_name(n), nontrivial=True)
     return r
+
+
+# ----------------------------------------------------------------------------- AB5
+def ab5(model):
+    r = RuleResult('AB5', 'arg_buffer never takes a paragraph break as a single-token argument: the '
+                   'exit that consumes one token is dominated by the test for ParagraphToken (an '
+                   'argument is not searched for beyond the end of the paragraph - for every '
+                   'caller, not only expand_arguments)', floor=1)
+    f = model.func('parser.Parser.arg_buffer')
+    hit = False
+    for n in iter_scope(f.node):
+        if not (isinstance(n, ast.Return) and n.value is not None):
+            continue
+        lists = [x for x in ast.walk(n.value) if isinstance(x, ast.List) and len(x.elts) == 1
+                 and isinstance(x.elts[0], ast.Name)]
+        if not lists:
+            continue
+        v = lists[0].elts[0].id
+        vals = T.resolve_local(model, lists[0].elts[0])
+        if not (vals and all(_is_opt_call(x) for x in vals)):
+            continue
+        hit = True
+
+        def excl(e, t):
+            if isinstance(e, ast.Compare) and isinstance(e.left, ast.Call) and getattr(e.left.func, 'id', '') == 'type' \
+                    and e.left.args and unparse(e.left.args[0]) == v and unparse(e.comparators[0]).endswith('ParagraphToken'):
+                return isinstance(e.ops[0], (ast.Is, ast.Eq)) != t
+            if isinstance(e, ast.Call) and getattr(e.func, 'id', '') == 'isinstance' and len(e.args) == 2 \
+                    and unparse(e.args[0]) == v and unparse(e.args[1]).endswith('ParagraphToken'):
+                return not t
+            return False
+        if guards.has_fact(n, excl):
+            r.ok(n, 'the single-token exit excludes ParagraphToken', nontrivial=True)
+        else:
+            r.fail(n, 'arg_buffer returns the next token as a single-token argument without excluding '
+                   'a paragraph break: an accent or \\text at the end of a paragraph swallows the '
+                   'blank line', witness="...as \\'\\n\\nNext")
+    if not hit:
+        r.undec(f.node, 'single-token exit of arg_buffer not recognised')
+        r.instances = 1
+    return r
